@@ -125,7 +125,12 @@ func c17NewInst(r *rand.Rand, n int, nextID *byte) *c17Inst {
 		sf("N", markStrT, `plenc:"9"`), sf("NT", markStrT, `plenc:"10,m1"`), sf("NS", reflect.SliceOf(markStrT), `plenc:"11"`), sf("NI", markStrT, `plenc:"12,intern"`),
 		sf("TM", model.TimeT, `plenc:"13"`), sf("SS", reflect.SliceOf(tString), `plenc:"14"`), sf("PS", reflect.SliceOf(reflect.PointerTo(markedT)), `plenc:"15"`),
 		sf("I", tInt, `plenc:"16"`), sf("MK", reflect.MapOf(markStrT, markStrT), `plenc:"17"`),
+		// the same types again under the built-in tag options: the option is part of the key
+		sf("SSP", reflect.SliceOf(tString), `plenc:"18,proto"`), sf("SP", reflect.SliceOf(markedT), `plenc:"19,proto"`), sf("IF", tInt, `plenc:"20,flat"`),
+		sf("MP", reflect.MapOf(tString, markedT), `plenc:"21,proto"`), sf("PSP", reflect.SliceOf(reflect.PointerTo(markedT)), `plenc:"22,proto"`), sf("NSP", reflect.SliceOf(markStrT), `plenc:"23,proto"`),
 	}
+	// declaration order decides which of (type, "") and (type, option) an instance sees first
+	r.Shuffle(len(cand), func(i, j int) { cand[i], cand[j] = cand[j], cand[i] })
 	var fs []reflect.StructField
 	for _, f := range cand {
 		probe := reflect.StructOf([]reflect.StructField{f})
